@@ -310,6 +310,9 @@ func FamilyNest(ts TmplSpec, depth3 bool) []*Skeleton {
 	add("items.contains", merge(J{"contains": lX}, ui))
 	add("items.contains-anyOf", merge(J{"anyOf": A{J{"contains": lX}, J{"contains": lInt}}}, ui))
 	add("items.contains-prefix", merge(J{"contains": lX}, p1, J{"unevaluatedItems": lBoolT}))
+	add("items.contains-inside-prefix2", merge(J{"contains": lX}, J{"prefixItems": A{true, true}}, ui))
+	add("items.contains-inside-prefix2-nested", merge(J{"allOf": A{J{"prefixItems": A{true, true}}, J{"contains": lX}}}, ui))
+	add("items.contains-then-items", merge(J{"contains": lX, "items": lInt}, ui))
 	add("items.items-under-allOf", merge(J{"allOf": A{J{"items": lInt}}}, ui))
 	add("items.nested-uneval", merge(J{"allOf": A{merge(p1, J{"unevaluatedItems": lInt})}}, ui))
 	add("items.cousins", J{"allOf": A{p1, merge(J{"prefixItems": A{true}}, ui, J{"maxItems": 1})}})
